@@ -16,6 +16,11 @@ CHECKS = {
             "Part A: every sequence of <=6 (quick) / <=7 (thorough) operations (commit on frontier with 4/6 write sets incl. empty values, deletes, re-creations and prefix-sharing keys; commit on stale and on rolled-back parents; rollback; open view at any commit / frontier / rolled-back commit; snapshot; write through view) on the real leveldb-backed and memory-backed managers, exact-state dedup (raw bytes + cache overlays + open views); after every transition every open view's Get/Has for every key, every prefix scan and Changes() are compared with a map-per-version reference. Part B: writer [Add,Add,Pop,Add] / [Pop,Pop,Add] against a historical-view reader and a frontier reader, all schedules with <=1 (quick) / <=2 (thorough) preemptions, scheduling points at every mutex acquisition and before every leveldb write.",
             "Trusted: goleveldb snapshots/iterators, the cooperative scheduler shim (vsync overlay); unsynchronised accesses invisible to lock-level scheduling are outside this check.",
             "5/C07"),
+    "C08": ("fault_enumeration",
+            "exhaustive crash-point enumeration: stop before every leveldb write of every commit/rollback (directory image + child-process kill), reopen, compare with pre/post state, continue",
+            "For 3 (quick) / 4 (thorough) histories of commits followed by a reorganisation (rollbacks + commits of a competing branch: transfers, contract calls with auto-receives and refunds, empty momentums, fork depth 1-5) delivered through InsertChain to a real node, the process is stopped before every leveldb write call-out of every ldbManager.Add / Pop and between operations (quick: database directory imaged inside the call-out; thorough: additionally a child process that os.Exit(137)s inside the call-out without closing, for every point). Every image must open as a node, hold exactly the pre- or post-state of the interrupted operation over the whole raw key space (ledger, redo, undo) and reach the crash-free final state after re-delivery.",
+            "Process stops between leveldb writes only; goleveldb's own journal atomicity for a single Write is trusted; fsync/power loss out of scope.",
+            "5/C08"),
 }
 
 NOT_BUILT_REASON = "check not built yet in this round (work in progress; see DESIGN.md section 5 for the planned model-checking formulation)"
